@@ -195,13 +195,13 @@ include hN hwf
 
 /-- `t.parseExpr(0)` inside the file parser -/
 theorem parseExpr0_safe {st : FState} {Q : Expr → FState → Prop} (hi : Inv EL S st.p) (hm : mu st.p ≤ N)
-    (hq : ∀ e st', Inv EL S st'.p → mu st'.p + 1 ≤ mu st.p → Q e st') :
+    (hq : ∀ e st', Inv EL S st'.p → (mu st'.p + 1 ≤ mu st.p ∧ EP S e) → Q e st') :
     FSafe AP EL S (parseExpr0 pf ef) st Q := by
   unfold parseExpr0
   apply FSafe.lift
   apply ((exprSpecs_all pf AP EL S hz hwf ef).parseExpr 0 st.p hi (by omega)).mono
   intro e p' ⟨a, b⟩
-  exact hq e { st with p := p' } a b.1
+  exact hq e { st with p := p' } a b
 
 omit hN hwf in
 include hlex in
